@@ -93,7 +93,7 @@ def report(ctx, prop, events, bad, leg, name=None):
         if why == "out-of-domain":
             ood.append(line)
             continue
-        rejected += 1
+        rejected += 1 if events[line - 1]["op"] in ("global", "local") else 0
         text = "%s: rejected by Trace_Align[%s]: %s" % (describe(events, line), prop, why)
         obj = {"leg": leg, "plan": plan_of(events, line), "reason": why, "event": slim(events[line - 1])}
         if why.startswith("KF_SingleStateAffine") and (not name or any(k["class"] == "KF_SingleStateAffine" for k in ctx.known)):
